@@ -3,7 +3,8 @@
 // ---- harness `cvec` (C33) ---------------------------------------------------------------------------
 // params: cap kDefaultCapacity (2 or 4; first bucket = cap/2 elements), strat 0 kFullBufferAhead /
 //         1 kHalfBufferAhead / 2 kAsNeeded, inl kPreferBuffersInline, fast kIteratorPreferSpeed,
-//         init = elements T0 appends before the threads start (tags 100+i), t0..t2 grower programs (alternatives
+//         init = elements T0 appends before the threads start (tags 100+i; alternatives allowed, they set where the
+//         growth starts relative to the bucket boundaries), t0..t2 grower programs (alternatives
 //         separated by '|' are all explored via mc::choose; sym=1 keeps only non-decreasing picks),
 //         rd=1 adds a reader thread holding a reference, a pointer and an iterator to element 0 (needs init>=1),
 //         which looks rr times (default 2) at arbitrary points.
@@ -207,12 +208,12 @@ struct CVec {
   }
 
   void body(const mc::Params& P) {
-    int init = (int)P("init", 0);
+    int init = atoi(pick_alt(P.s("init", "0")).c_str()); // alternatives allowed: init=0|1|2|3
     bool rd = P("rd", 0) != 0;
     int idx[3];
     std::string progs[3] = {pick_alt(P.s("t0", ""), &idx[0]), pick_alt(P.s("t1", ""), &idx[1]), pick_alt(P.s("t2", ""), &idx[2])};
     if (P("sym", 0) && (idx[1] < idx[0] || (!progs[2].empty() && idx[2] < idx[1]))) return; // multisets only
-    mc::observe("progs", idx[0] * 4096 + idx[1] * 64 + idx[2]);
+    mc::observe("progs", (idx[0] * 4096 + idx[1] * 64 + idx[2]) * 16 + init);
     for (int i = 0; i < init; i++) {
       v.push_back(Elem(100 + i));
       log.add(i, 1, 100 + i);
